@@ -318,3 +318,71 @@ Proof. cbv zeta. split; vm_compute; reflexivity. Qed.
 
 Example C12_no_slash_satisfiable : no_slash [112; 111; 111; 108; 45; 49] = true /\ no_slash [97; 47; 98] = false.
 Proof. split; vm_compute; reflexivity. Qed.
+
+(* ---------- (4') ids inside JSON: refuted + partial (known findings K12d, K12e, K12f) ---------- *)
+(* Subscriber ids travel inside the JSON text; encoding/json rewrites every byte that does not start a
+   valid UTF-8 sequence to U+FFFD ([json_coerce], tied against the real package).  [b_roundtrip names ord],
+   [e_roundtrip], [m_roundtrip_ids] are Marshal;Unmarshal with that coercion applied to the ids of the
+   case's table [names] ([ord]: byte order of the ids = order of the keys in the marshalled object, later
+   duplicates overwrite).  The theorems above (names = []: ids "s<h>") are the instance "all ids ASCII".
+   Refuted with the id "\xff"; full strength under the decidable guard [ids_valid]: every id held by the
+   allocator is valid UTF-8 (marker 1204 where it is not) *)
+Theorem C12_marshal_roundtrip_bitmap_ids_refuted :
+  exists names ord g ops q, fam_ok g /\ b_query (b_roundtrip names ord (brun g ops)) q <> b_query (brun g ops) q.
+Proof. exact marshal_roundtrip_bitmap_ids_refuted. Qed.
+Print Assumptions C12_marshal_roundtrip_bitmap_ids_refuted.
+
+Theorem C12_marshal_roundtrip_bitmap_ids_partial : forall names ord g ops q, fam_ok g ->
+  ids_valid names (map fst (b_alloc (brun g ops))) = true ->
+  b_query (b_roundtrip names ord (brun g ops)) q = b_query (brun g ops) q.
+Proof. exact marshal_roundtrip_bitmap_ids_partial. Qed.
+Print Assumptions C12_marshal_roundtrip_bitmap_ids_partial.
+
+Theorem C12_marshal_roundtrip_epoch_ids_refuted :
+  exists names ord base ones pl grace ops q s',
+    e_roundtrip names ord (e_run base ones pl grace ops) = Some s' /\ e_query s' q <> e_query (e_run base ones pl grace ops) q.
+Proof. exact marshal_roundtrip_epoch_ids_refuted. Qed.
+Print Assumptions C12_marshal_roundtrip_epoch_ids_refuted.
+
+Theorem C12_marshal_roundtrip_epoch_ids_partial : forall names ord base ones pl grace ops,
+  ones <= pl -> pl <= 32 -> base mod 2 ^ (32 - ones) = 0 ->
+  ids_valid names (map fst (e_sub (e_run base ones pl grace ops))) = true ->
+  exists s', e_roundtrip names ord (e_run base ones pl grace ops) = Some s' /\
+             forall q, e_query s' q = e_query (e_run base ones pl grace ops) q.
+Proof. exact marshal_roundtrip_epoch_ids_partial. Qed.
+Print Assumptions C12_marshal_roundtrip_epoch_ids_partial.
+
+Theorem C12_marshal_roundtrip_store_ids_refuted :
+  exists names ops q, m_query (m_roundtrip_ids names (m_run ops)) q <> m_query (m_run ops) q.
+Proof. exact marshal_roundtrip_store_ids_refuted. Qed.
+Print Assumptions C12_marshal_roundtrip_store_ids_refuted.
+
+Theorem C12_marshal_roundtrip_store_ids_partial : forall names ops q,
+  ids_valid names (map sr_sub (ms_recs (m_run ops))) = true ->
+  m_query (m_roundtrip_ids names (m_run ops)) q = m_query (m_run ops) q.
+Proof. exact marshal_roundtrip_store_ids_partial. Qed.
+Print Assumptions C12_marshal_roundtrip_store_ids_partial.
+
+(* ids without a byte >= 128 are inside the guard *)
+Theorem C12_ascii_ids_are_valid : forall l, forallb (fun b => b <? 128) l = true -> utf8_valid l = true.
+Proof. exact ascii_utf8_valid. Qed.
+Print Assumptions C12_ascii_ids_are_valid.
+
+(* the coercion on the boundary cases of the UTF-8 table: lone 0xFF, truncated 2-byte sequence inside
+   text, overlong "/", a surrogate, > U+10FFFF are rewritten byte by byte; "é", U+FFFD itself, U+10FFFF
+   and an emoji pass *)
+Example C12_json_coerce_examples :
+  json_coerce [255] = [239; 191; 189] /\ json_coerce [97; 195] = [97; 239; 191; 189] /\
+  json_coerce [192; 175] = [239; 191; 189; 239; 191; 189] /\
+  json_coerce [237; 160; 128] = [239; 191; 189; 239; 191; 189; 239; 191; 189] /\
+  utf8_valid [244; 144; 128; 128] = false /\
+  utf8_valid [195; 169] = true /\ utf8_valid [239; 191; 189] = true /\ utf8_valid [244; 143; 191; 191] = true /\
+  utf8_valid [240; 159; 152; 128] = true /\ utf8_valid [195; 40] = false.
+Proof. repeat split; vm_compute; reflexivity. Qed.
+
+(* the guard is satisfiable by a table that also contains hostile ids, as long as those are not held *)
+Example C12_ids_valid_nonvacuous :
+  let names := [(0, [255]); (1, [239; 191; 189]); (2, [195; 169; 47; 120])] in
+  ids_valid names (map fst (b_alloc (brun ff_geo [Alloc 2; Alloc 1]))) = true /\
+  ids_valid names (map fst (b_alloc (brun ff_geo [Alloc 2; Alloc 0]))) = false /\ alias names 0 = 1.
+Proof. cbv zeta. repeat split; vm_compute; reflexivity. Qed.
